@@ -3,8 +3,12 @@ claim('C17', 'Proof (all image sizes and bounds in [1, 2^20), all actions/interp
       'execute_xforms, execute_xform_box and the size block of VideoReader.thread_reader satisfy the size laws of the statement '
       '(within bounds, never enlarges/shrinks, exact resize, largest-inside, aspect within 1px, independent + bounds, no failing cv2 call) '
       'and call the documented cv2 primitive per action. Pixel-level flip/rotate involution laws are library facts (trusted).', '6-C17')
+claim('C16', 'Proof over symbolic metric names, allow-list patterns and values that the real OTelLineageExporter._is_allowed equals the allow predicate of '
+      'the statement, that every key export() hands to the lineage backend stems from an allowed metric (none with an empty allow-list), that histograms '
+      'have len(counts) == len(buckets)+1 with numeric fields on pad and truncate paths, and that read_allowlist() defaults to the empty set. '
+      'Shape-bounded: up to 2 metrics per call, allow-lists of 0..2 (3 thorough) entries. Wiring in client.py is a syntactic anchor.', '6-C16')
 _todo = 'check not built yet in this session (planned, see DESIGN.md section 6); not claimed until its obligations are discharged'
-for _p in ('C01', 'C02', 'C03', 'C04', 'C05', 'C07', 'C08', 'C09', 'C10', 'C11', 'C12', 'C13', 'C14', 'C15', 'C16', 'C18'):
+for _p in ('C01', 'C02', 'C03', 'C04', 'C05', 'C07', 'C08', 'C09', 'C10', 'C11', 'C12', 'C13', 'C14', 'C15', 'C18'):
     NA[_p] = _todo
 NA['C06'] = ('liveness under fairness and bounded-time recovery across several processes: not expressible as pre/postconditions or invariants of one call; '
              'termination is not proved by this verifier (DESIGN.md section 7); its safety ingredients are proved under C02/C04/C05')
